@@ -60,6 +60,7 @@ type FuncContract struct {
 	Assumed   bool // contract is assumed, body not verified (listed in evidence)
 	Props     []string // properties this contract serves
 	Uses      map[string]string // callee name -> aspect of the callee contract to use at its call sites
+	Clobbers  []string            // extern: slice parameters whose elements the function overwrites in place (sort.Strings)
 	Callsites map[string][]Clause // callee name -> conditions that must hold at every call of it in this function (callee_<param> = actual argument)
 	File      string
 	Line      int
@@ -104,7 +105,7 @@ type ContractSet struct {
 	Ghosts []string               // global boolean ghost variables: ghost NAME bool
 }
 
-var kwRe = regexp.MustCompile(`^(func|extern|fun|ofun|heaps|ghost|axiom|lemma|aspect|requires|ensures|modifies|decreases|loop|pure|fresh|havocs|maypanic|panics|inline|assumed|props|noframe|uses|trusted_ensures|callsite)\b`)
+var kwRe = regexp.MustCompile(`^(func|extern|fun|ofun|heaps|ghost|axiom|lemma|aspect|requires|ensures|modifies|decreases|loop|pure|fresh|havocs|maypanic|panics|inline|assumed|props|noframe|uses|trusted_ensures|callsite|clobbers)\b`)
 
 type rawItem struct {
 	kw   string
@@ -272,6 +273,10 @@ func (cs *ContractSet) load(path, pkgPath string) error {
 				}
 				for _, f := range strings.Split(parts[1], ",") {
 					cur.Uses[strings.TrimSpace(f)] = strings.TrimSpace(parts[0])
+				}
+			case "clobbers":
+				for _, f := range strings.Split(it.text, ",") {
+					cur.Clobbers = append(cur.Clobbers, strings.TrimSpace(f))
 				}
 			case "callsite":
 				// callsite F: <condition over the caller's state and callee_<param>>
